@@ -422,3 +422,32 @@ def sp_then_touch_case(rng):
         prog += [['flush'], ['set', 'Tag', [1], 'name', 6]]
     prog += [['commit'], ['set', 'Article', [2], 'name', 30], ['commit']]
     return {'spec': spec, 'autoflush': False, 'program': prog, 'family': 'savepoints_then_touch_again'}
+
+
+def same_value_inherited_case(rng):
+    """an instance of a SUBCLASS (joined / single-table), expired by a commit or rollback, gets an attribute declared on
+    the BASE class (or on itself) assigned the value it already has - alone, or next to a real change of another entity:
+    no version for the untouched one"""
+    kind = rng.choice(['joined', 'joined3', 'single'])
+    opts = {'strategy': rng.choice(['validity', 'subquery'])}
+    if kind == 'single':
+        spec = envs.shape_single(opts, plugins=rng.choice([[], ['mod_tracker']]))
+    else:
+        spec = envs.shape_joined(opts, levels=3 if kind == 'joined3' else 2, plugins=rng.choice([[], ['mod_tracker']]))
+    spec['shape'] = 'single' if kind == 'single' else 'joined'
+    sub = rng.choice(['Article', 'BlogPost']) if kind != 'joined' else 'Article'
+    own = {'Article': 'content', 'BlogPost': 'title'}[sub]
+    prog = [['add', sub, [1], {'name': 1, own: 2}], ['add', 'TextItem', [2], {'name': 1}], ['commit']]
+    for _ in range(rng.choice([1, 2, 3])):
+        k = rng.random()
+        if k < 0.5:
+            prog += [['set', sub, [1], 'name', 1]]                    # base-class attribute, same value
+        elif k < 0.7:
+            prog += [['set', sub, [1], own, 2]]                       # own attribute, same value
+        else:
+            prog += [['set', sub, [1], 'name', 1], ['set', 'TextItem', [2], 'name', rng.randrange(3, 9)]]
+        if rng.random() < 0.4:
+            prog += [['flush']]
+        prog += [rng.choice([['commit'], ['commit'], ['rollback']])]
+    prog += [['set', sub, [1], 'name', 7], ['commit']]
+    return {'spec': spec, 'autoflush': False, 'program': prog, 'family': 'same_value_on_expired_subclass_instance'}
